@@ -168,7 +168,9 @@ Record case := {
   c_split : option nat;                            (* Some n: run interrupted after n deliveries and resumed *)
   (* whole run for the Tuner.run model: old table, scheduler answers, steps of the loop, does stop_all raise,
      did the real run() raise, observed order of the final store (0) and stop_all (1) *)
-  c_run : option (option (list dict) * list answer * list step * bool * bool * list nat)
+  c_run : option (option (list dict) * list answer * list step * bool * bool * list nat);
+  (* ONE tuner object run several times: per leg the scheduler answers and the steps of the loop *)
+  c_legs : option (list (list answer * list step))
 }.
 
 Definition ev_same (a b : event) : bool :=
@@ -180,6 +182,18 @@ Definition upd_same (a b : list Z * list (Z * dict)) : bool :=
   list_eqb (fun x y => Z.eqb (fst x) (fst y) && dict_equiv (snd x) (snd y)) (snd a) (snd b).
 Definition end_order (tr : list fin_step) : list nat :=
   flat_map (fun f => match f with FCallbacksEnd => [0%nat] | FStopAll => [1%nat] | _ => [] end) tr.
+Definition chk_legs (c : case) : bool :=
+  match c_legs c with
+  | None => true
+  | Some ls =>
+      let legs := map (fun l => {| lg_answers := fst l; lg_steps := snd l; lg_fails := fun _ => false |}) ls in
+      let st := tuner_legs (tuner_new (c_wallclock c) None) legs in
+      list_eqb ev_same (legs_delivered legs) (c_events c) &&
+      list_eqb upd_same (legs_history legs) (c_history c) &&
+      Nat.eqb (length (cb_results (rs_cb st))) (length (c_rows c)) &&
+      stats_match (c_tol c) (ts_overall (rs_ts st)) (c_overall c) &&
+      trials_match (c_tol c) (ts_trials (rs_ts st)) (c_trials c)
+  end.
 Definition chk_run (c : case) : bool :=
   match c_run c with
   | None => true
@@ -241,7 +255,7 @@ Definition chk_exp (c : case) : bool := forallb (chk_equery (c_table c)) (c_eq c
 Definition chk_mask (c : case) : Z :=
   ((if chk_rows c then 0 else 1) + (if chk_stats c then 0 else 2) +
    (if chk_best c then 0 else 4) + (if chk_exp c then 0 else 8) + (if chk_summary c then 0 else 16) +
-   (if chk_csv c then 0 else 32) + (if chk_run c then 0 else 64))%Z.
+   (if chk_csv c then 0 else 32) + (if chk_run c then 0 else 64) + (if chk_legs c then 0 else 128))%Z.
 Definition chk_case (c : case) : bool := Z.eqb (chk_mask c) 0.
 """
 
@@ -397,6 +411,11 @@ def check_rows(deliveries, rows, wallclock, boundaries=()):
             allowed.add("config_" + k)
             if "config_" + k not in row or not same_value(row["config_" + k], v):
                 return "row %d: config_%s = %r, trial configuration has %r" % (i, k, row.get("config_" + k), v)
+        extra = dv.get("extra") or {}
+        for k, v in extra.items():  # columns of the extra_results_composer, optional per row
+            allowed.add(k)
+            if k not in row or not same_value(row[k], v):
+                return "row %d: extra column %s = %r, the composer returned %r" % (i, k, row.get(k), v)
         for k, v in dv["result"].items():
             if k in allowed:  # reserved column names overwrite a reported value of the same name
                 continue
@@ -640,6 +659,33 @@ def make_recording_callback():
     return RecordingStore
 
 
+def make_composer(script):
+    """a real ExtraResultsComposer subclass returning scripted extra columns (or None) per call; records what it
+    returned"""
+    from syne_tune.results_callback import ExtraResultsComposer
+
+    class ScriptedComposer(ExtraResultsComposer):
+        def __init__(self, script):
+            self.script, self.returned = [None if x is None else dict(x) for x in script], []
+
+        def __call__(self, tuner):
+            x = self.script[len(self.returned) % len(self.script)]
+            self.returned.append(None if x is None else dict(x))
+            return None if x is None else dict(x)
+
+        def keys(self):
+            return sorted({k for x in self.script if x for k in x})
+
+    return ScriptedComposer(script)
+
+
+def gen_composer(rng):
+    if rng.random() < 0.65:
+        return None
+    return [rng.choice([None, None, {"extra_a": rng.randint(0, 9) / 2.0}, {"extra_a": 1.5, "extra_tag": "x"},
+                        {"extra_b": rng.choice([1, 2, 3])}, {}]) for _ in range(rng.randint(1, 5))]
+
+
 @contextlib.contextmanager
 def quiet():
     logging.disable(logging.CRITICAL)
@@ -771,10 +817,10 @@ def exp_queries(er, names):
     return out
 
 
-def run_model_term(tb, rm):
+def run_model_term(tb, rm, leg_only=False):
     def item(t, res, status, cfg):
         return ("{| hi_trial := %s; hi_result := %s; hi_status := %s; hi_config := %s; hi_clock := 0; "
-                "hi_fire := false |}" % (zlit(t), dict_term(tb, res), natlit(tb.tok(status)), cfg_term(tb, cfg)))
+                "hi_fire := false; hi_extra := None |}" % (zlit(t), dict_term(tb, res), natlit(tb.tok(status)), cfg_term(tb, cfg)))
     steps = []
     for st in rm["steps"]:
         if st[0] == "batch":
@@ -789,21 +835,24 @@ def run_model_term(tb, rm):
     answers = lst(["{| an_decision := %s; an_stops := %s; an_exec_fails := %s |}" % (
         natlit(tb.tok(d)), blit(d in ("STOP", "PAUSE")), blit(rm.get("exec_fault", False) and i == n - 1))
         for i, d in enumerate(rm["decisions"])])
+    if leg_only:
+        return "(%s, %s)" % (answers, lst(steps))
     return "(%s, %s, %s, %s, %s, %s)" % (
         optlit(rm["old"], lambda rows: lst([dict_term(tb, r) for r in rows])), answers, lst(steps),
         blit(rm["stop_fails"]), blit(rm["raised"]), lst([natlit(x) for x in rm["end_order"]]))
 
 
 def build_case(tb, wallclock, events, rows, history, overall, per_trial, backend_cfgs, names, mode, bq, tq, table, eqs,
-               summaries=(), disk_cols=None, split=None, run_model=None):
+               summaries=(), disk_cols=None, split=None, run_model=None, legs_model=None):
     names_t = lst([key_term(tb, n) for n in names])
     ms = modes_term(mode)
     ev_terms = []
     for e in events:
         ev_terms.append("{| ev_trial := %s; ev_status := %s; ev_result := %s; ev_decision := %s; ev_config := %s; "
-                        "ev_clock := %s; ev_fire := %s |}" % (
+                        "ev_clock := %s; ev_fire := %s; ev_extra := %s |}" % (
                             zlit(e["trial_id"]), natlit(tb.tok(e["status"])), dict_term(tb, e["result"]),
-                            natlit(tb.tok(e["decision"])), cfg_term(tb, e["config"]), q(e["clock"]), blit(e["fire"])))
+                            natlit(tb.tok(e["decision"])), cfg_term(tb, e["config"]), q(e["clock"]), blit(e["fire"]),
+                            optlit(e.get("extra"), lambda x: dict_term(tb, x))))
     hist = lst(["(%s, %s)" % (lst([zlit(t) for t in ids]),
                               lst(["(%s, %s)" % (zlit(t), dict_term(tb, r)) for t, r in res]))
                 for ids, res in history])
@@ -831,7 +880,7 @@ def build_case(tb, wallclock, events, rows, history, overall, per_trial, backend
                 for b in summaries])
     return ("{| c_wallclock := %s;\n c_events := %s;\n c_rows := %s;\n c_history := %s;\n c_tol := %s;\n"
             " c_overall := %s;\n c_trials := %s;\n c_backend := %s;\n c_bq := %s;\n c_tq := %s;\n c_table := %s;\n"
-            " c_eq := %s;\n c_sq := %s;\n c_disk := %s;\n c_split := %s;\n c_run := %s |}" % (
+            " c_eq := %s;\n c_sq := %s;\n c_disk := %s;\n c_split := %s;\n c_run := %s;\n c_legs := %s |}" % (
                 blit(wallclock), lst(ev_terms), lst([dict_term(tb, r) for r in rows]), hist, q(rtol * mag),
                 istats_term(tb, overall),
                 lst(["(%s, %s)" % (zlit(t), istats_term(tb, s)) for t, s in per_trial.items()]),
@@ -839,7 +888,8 @@ def build_case(tb, wallclock, events, rows, history, overall, per_trial, backend
                 bq_t, tq_t, lst([dict_term(tb, r) for r in table]), eq_t, sq_t,
                 optlit(disk_cols, lambda cols: "(%s, %s)" % (lst([key_term(tb, c) for c in cols]),
                                                             lst([natlit(tb.tok(None))]))),
-                optlit(split, natlit), optlit(run_model, lambda rm: run_model_term(tb, rm))))
+                optlit(split, natlit), optlit(run_model, lambda rm: run_model_term(tb, rm)),
+                optlit(legs_model, lambda legs: lst([run_model_term(tb, rm, leg_only=True) for rm in legs]))))
 
 
 SKIP_DISK = object()
@@ -1004,6 +1054,7 @@ def gen_seq_spec(rng):
             state[t] = "paused" if d == "PAUSE" else "done"
         ops.append(dict(status=status, results=results))
     return dict(names=names, mode=mode, hps=hps, wallclock=rng.random() < 0.8, dtypes=gen_dtypes(rng, names),
+                composer=gen_composer(rng),
                 rui=rng.choice([-1, -1, 0, 0.5, 10.0]), ops=ops, styles=styles)
 
 
@@ -1012,7 +1063,8 @@ def run_seq(ctx, spec, workdir):
     from syne_tune.backend.trial_status import Trial
     RecordingStore = make_recording_callback()
     names, mode = spec["names"], spec["mode"]
-    cb = RecordingStore(add_wallclock_time=spec["wallclock"])
+    comp = make_composer(spec["composer"]) if spec.get("composer") else None
+    cb = RecordingStore(add_wallclock_time=spec["wallclock"], extra_results_composer=comp)
     cb.on_tuning_start(SimpleNamespace(tuner_path=Path(workdir), results_update_interval=spec["rui"]))
     ts = TuningStatus(metric_names=list(names))
     t0 = datetime.datetime(2024, 1, 1)
@@ -1038,8 +1090,10 @@ def run_seq(ctx, spec, workdir):
                 row = cb.results[-1]
                 fired = len(cb.store_sizes) > n_before
                 deliveries.append(dict(trial_id=t, status=status, result=dict(res), decision=decision,
-                                       config=dict(cfg_now[t])))
+                                       config=dict(cfg_now[t]), extra=comp.returned[-1] if comp else None))
                 clock = row.get("st_tuner_time", 0.0) if "st_tuner_time" not in res else 0.0
+                if not isinstance(clock, float):
+                    clock = 0.0
                 events.append(dict(deliveries[-1], clock=clock if isinstance(clock, float) else 0.0, fire=fired))
             new_results = [(t, dict(res)) for t, res, _, _ in op["results"]]
             ts.update(trial_status_dict={t: (Trial(trial_id=t, config=dict(c), creation_time=t0), st)
@@ -1372,6 +1426,7 @@ def gen_run_spec(rng, idx):
                 n_workers=rng.randint(1, 3), seed=rng.randint(0, 10 ** 6), rui=rng.choice([-1, 0, 10.0]),
                 max_results=rng.randint(3, 25), max_loops=rng.randint(10, 60))
     spec["dtypes"] = gen_dtypes(rng, names)
+    spec["composer"] = gen_composer(rng)
     if rng.random() < 0.4:  # injected faults: the run ends with an exception, the table must be complete anyway
         spec["faults"] = rng.choice([dict(stop_all=True), dict(stop_all=True), dict(suggest_at=rng.randint(2, 6)),
                                      dict(poll_at=rng.randint(2, 8)),
@@ -1432,7 +1487,9 @@ def build_whole(spec, metadata=None):
                                        (spec.get("faults") or {}).get("remove_at"))
         backend = cls.ScriptedBackend([[cast_result(r, spec.get("dtypes")) for r in sc] for sc in spec["scripts"]],
                                       spec["chunks"], spec["outcomes"], limit_attr, spec.get("faults"))
-        store, rec = RecordingStore(add_wallclock_time=True), cls.Recorder()
+        comp = make_composer(spec["composer"]) if spec.get("composer") else None
+        store, rec = RecordingStore(add_wallclock_time=True, extra_results_composer=comp), cls.Recorder()
+        store.composer = comp
         store.order = backend.order = []
 
         def stop(status):
@@ -1465,8 +1522,10 @@ def collect_run(ctx, spec, tuner, sched, backend, store, rec, summaries, run_err
     ts = tuner.tuning_status
     rows = [dict(r) for r in store.results]
     import itertools
-    deliveries = [dict(d, status=st) for d, st in itertools.zip_longest(sched.delivered, rec.statuses)
-                  if d is not None]
+    comp = getattr(store, "composer", None)
+    extras = list(comp.returned) if comp is not None else []
+    deliveries = [dict(d, status=st, extra=ex) for d, st, ex in
+                  itertools.zip_longest(sched.delivered, rec.statuses, extras) if d is not None]
     n_delivered = (len(sched.delivered), len(rec.statuses))
     overall = stats_obs(ts.overall_metric_statistics)
     per_trial = {int(t): stats_obs(s) for t, s in ts.trial_metric_statistics.items()}
@@ -1505,7 +1564,18 @@ def collect_run(ctx, spec, tuner, sched, backend, store, rec, summaries, run_err
     return dict(deliveries=deliveries, events=events, handed=handed, history=history, rows=rows, df=df,
                 overall=overall, per_trial=per_trial, backend_cfgs=backend_cfgs, bq=bq, tq=tq, table=table, eqs=eqs,
                 stores=stores, n_delivered=n_delivered, meta_ok=meta_ok, summaries=summaries, run_error=run_error,
-                split=split, run_model=None if split is not None else tuner_run_inputs(sched, backend, store, rec, run_error))
+                split=split, run_model=None if split is not None else tuner_run_inputs(sched, backend, store, rec, run_error),
+                legs_model=legs_inputs(sched, rec, split, run_error))
+
+
+def legs_inputs(sched, rec, split, run_error):
+    """one tuner object run twice (or stored and loaded back in between): answers and steps per leg"""
+    cut = getattr(rec, "leg_cut", None)
+    if split is None or cut is None or run_error is not None:
+        return None
+    decisions = [d["decision"] for d in sched.delivered]
+    return [dict(decisions=decisions[:split], steps=list(rec.log[:cut])),
+            dict(decisions=decisions[split:], steps=list(rec.log[cut:]))]
 
 
 def tuner_run_inputs(sched, backend, store, rec, run_error):
@@ -1537,7 +1607,9 @@ def run_resumed(ctx, spec):
             sched = cls.RecordingScheduler(inner)
             backend = cls.ScriptedBackend([[cast_result(r, spec.get("dtypes")) for r in sc] for sc in spec["scripts"]],
                                          spec["chunks"], spec["outcomes"], limit_attr, spec.get("faults"))
-            store, rec = RecordingStore(add_wallclock_time=True), cls.Recorder()
+            comp = make_composer(spec["composer"]) if spec.get("composer") else None
+            store, rec = RecordingStore(add_wallclock_time=True, extra_results_composer=comp), cls.Recorder()
+            store.composer = comp
             tuner = Tuner(trial_backend=backend, scheduler=sched,
                           stop_criterion=cls.StopAfter(spec["max_results"], spec["max_loops"]),
                           n_workers=spec["n_workers"], sleep_time=0, results_update_interval=spec["rui"],
@@ -1550,6 +1622,7 @@ def run_resumed(ctx, spec):
             except Exception as e:  # noqa: BLE001
                 run_error = raised(e)
             split = len(sched.delivered)
+            rec.leg_cut = len(rec.log)  # travels with the recorder (also through tuner.dill)
             path = str(tuner.tuner_path)
             if spec["resume"] == "same_object" and run_error is None:
                 # the SAME Tuner object is continued: larger stop criterion, run() again
@@ -1574,6 +1647,9 @@ def run_resumed(ctx, spec):
                     resumed = Tuner.load(path)
                     resumed.stop_criterion = cls.StopAfter(spec["max_results"] + spec["more_results"],
                                                            spec["max_loops"])
+                    for c in resumed.callbacks:
+                        if hasattr(c, "statuses"):
+                            c.leg_cut = len(c.log)  # the recorder came back from tuner.dill with the log of leg 1
                     n_out = len(out.getvalue())
                     resumed.run()
                     summaries = [parse_summary(out.getvalue()[n_out:])]
@@ -1604,21 +1680,21 @@ def run_cases(ctx, replay, corpus_only=False):
     elif corpus_only:  # formerly failing whole runs first, so that they are among the reported violations
         specs = corpus_specs("run")
     else:
-        specs = [gen_run_spec(rng, i) for i in range(ctx.n(60, 800))]
-        for i in range(ctx.n(30, 360)):  # runs that are interrupted and continued (same object, or Tuner.load)
+        specs = [gen_run_spec(rng, i) for i in range(ctx.n(48, 800))]
+        for i in range(ctx.n(24, 360)):  # runs that are interrupted and continued (same object, or Tuner.load)
             sp = gen_run_spec(rng, 10000 + i)
             sp.pop("faults", None)
             sp.update(resume=rng.choice(["same", "moved", "moved", "same_object", "same_object"]), more_results=rng.randint(2, 15),
                       max_results=rng.randint(2, 10), rui=rng.choice([0, 10.0, 10.0, -1]))
             specs.append(sp)
-        for i in range(ctx.n(14, 160)):  # experiments sharing one metadata dict
+        for i in range(ctx.n(12, 160)):  # experiments sharing one metadata dict
             sp = gen_run_spec(rng, 30000 + i)
             sp.pop("faults", None)
             sp["shared_metadata"] = rng.choice([True, "constructed_first", "constructed_first"])
             if sp["shared_metadata"] == "constructed_first" and sp["kind"] != "hb_promotion" and rng.random() < 0.5:
                 sp["rename_first"] = True  # the first experiment also has other metric names
             specs.append(sp)
-        for i in range(ctx.n(16, 200)):  # the experiment is run AGAIN under the same fixed name (fresh objects)
+        for i in range(ctx.n(12, 200)):  # the experiment is run AGAIN under the same fixed name (fresh objects)
             sp = gen_run_spec(rng, 20000 + i)
             sp.pop("faults", None)
             how = rng.choice(["stop_at_once", "stop_at_once", "never_report", "one", "several"])
@@ -1709,6 +1785,7 @@ def run_cases(ctx, replay, corpus_only=False):
               "%s -> %s" % ("+".join(sorted(spec["faults"])), err["raised"] if err else "run ended normally"))
         for dt in (spec.get("dtypes") or {}).values():
             ctx.h("run_value_type", dt)
+        ctx.h("run_composer", "none" if not spec.get("composer") else "extra columns")
         if spec.get("resume"):
             ctx.h("run_resume", "%s, rows before/after: %s" % (
                 spec["resume"], "both" if 0 < (split or 0) < len(obs["deliveries"]) else
@@ -1750,7 +1827,7 @@ def run_cases(ctx, replay, corpus_only=False):
                                 obs["backend_cfgs"], spec["names"], spec["mode"], obs["bq"], obs["tq"], obs["table"],
                                 obs["eqs"], summaries=obs["summaries"],
                                 disk_cols=None if obs["df"] is None else [str(c) for c in obs["df"].columns],
-                                split=split, run_model=obs.get("run_model")))
+                                split=split, run_model=obs.get("run_model"), legs_model=obs.get("legs_model")))
         meta.append(case)
         if len(obs["rows"]) >= 3 and not getattr(ctx, "_c17_run_sampled", False):
             ctx._c17_run_sampled = True
@@ -1809,7 +1886,7 @@ def seq_cases(ctx, replay):
     elif replay:
         return
     else:
-        specs = corpus_specs("seq") + [gen_seq_spec(rng) for _ in range(ctx.n(260, 4000))]
+        specs = corpus_specs("seq") + [gen_seq_spec(rng) for _ in range(ctx.n(200, 4000))]
     terms, meta = [], []
     for i, spec in enumerate(specs):
         workdir = os.path.join(_TMP_ROOT, "seq-%d" % i)
@@ -1851,7 +1928,7 @@ def seq_cases(ctx, replay):
     report_model_mismatches(ctx, "seq", terms, meta)
 
 
-PARTS = {64: "whole run (tuner_run: deliver_batch / run_body / finally block)",
+PARTS = {128: "one tuner object run several times (tuner_legs)", 64: "whole run (tuner_run: deliver_batch / run_body / finally block)",
          32: "table read back from disk (csv_write / csv_read / columns)",
          16: "final summary of Tuner.run (tuner_final_summary)", 1: "rows (cb_run / make_row)", 2: "statistics (ts_run / stats_add)",
          4: "best trial (print_best / tuner_best_config)", 8: "best row (exp_best_config)"}
@@ -1871,7 +1948,7 @@ def report_model_mismatches(ctx, tag, terms, meta):
         try:
             bits = int(mk.split()[0].strip("()%Z"))
         except ValueError:
-            bits = 127
+            bits = 255
         parts = [v for b, v in PARTS.items() if bits & b]
         ctx.violation("correspondence", "model and implementation differ on: " + "; ".join(parts), case=meta[i],
                       failing_input=False, broken="correspondence chk_case (model/Results.v): " + "; ".join(parts))
